@@ -20,7 +20,7 @@ def get_line_count_between_tokens(oStart, oEnd, lAllTokens, oTokenMap):
         lStartIndexes.append(iStart)
 
     for iStart, iLine, iDelta, iStartIndex in zip(lStart, lStartLines, lDeltaLines, lStartIndexes):
-        oTokens = tokens.New(None, iLine, [lAllTokens[iStartIndex]])
+        oTokens = tokens.New(iStartIndex, iLine, [lAllTokens[iStartIndex]])
         oTokens.set_meta_data("length", iDelta)
         lReturn.append(oTokens)
 
